@@ -213,11 +213,16 @@ class C12(PropBase):
             accts, cs, tgs = declare_all()
             cs = [c for c in cs if c != x]
         elif kind == "undecl_tag":
-            tg = rng.choice(["zz", "trip:zz", "t9"])
+            tg = rng.choice(["zz", "trip:zz", "t9", "par", "par:ent", "kid:x"])
             txns.append(simple_txn([post(pool[0], "1")], {"acct": pool[-1], "comment": None},
                                    tags=[tg] + ([tag_pool[0]] if rng.random() < 0.5 else [])))
             accts, cs, tgs = declare_all()
             tgs = [t for t in tgs if t != tg]
+            # tags are flat names: a declared hierarchical tag declares neither its parents nor its children
+            if tg in ("par", "par:ent"):
+                tgs = tgs + ["par:ent:child"]
+            if tg == "kid:x":
+                tgs = tgs + ["kid"]
         elif kind == "report_comm":
             rc = rng.choice(comms + EXTRA_COMMS)
             extra["report_commodity"] = rc
